@@ -10,7 +10,7 @@ def parseEntry (t : String) : Option Entry :=
   let digits := t.takeWhile Char.isDigit
   let kind := t.drop digits.positions.count
   match digits.toString.toNat? with
-  | some a => if kind.toString.length == 1 then some ⟨a, kind.toString == "v" || kind.toString == "r"⟩ else none
+  | some a => if kind.toString.length == 1 then some ⟨a, kind.toString == "v" || kind.toString == "r" || kind.toString == "s"⟩ else none
   | none => none
 
 def parseEntries (ts : List String) : Option (List Entry) := ts.mapM parseEntry
